@@ -308,24 +308,21 @@ def acceptance(repo, run):
         if not loops:
             raise AnalysisError("%s: iteration loop not found" % q)
         lp = loops[-1]
-        acc = None
-        for st in ast.walk(lp):
-            if isinstance(st, ast.If) and any(isinstance(s2, ast.Assign) and src(s2.targets[0]) == "x" and src(s2.value) == trial for s2 in st.body):
-                acc = st
-        if acc is None:
+        accs = [s2 for s2 in ast.walk(lp) if isinstance(s2, ast.Assign) and src(s2.targets[0]) == "x" and src(s2.value) == trial]
+        if not accs:
             raise AnalysisError("%s: acceptance of the trial point (`x = %s`) not found" % (q, trial))
+        acc_st = accs[-1]
+        top = acc_st
+        while top._parent is not lp:
+            top = top._parent
         bt = BoolTracker()
         # boolean locals defined before the acceptance test in the same loop body
-        body = acc._parent.body if hasattr(acc._parent, "body") else lp.body
-        pre = []
-        for st in lp.body:
-            if st is acc:
-                break
-            pre.append(st)
-        bt.run(pre)
-        tree = bt.tree(acc.test)
+        bt.run(lp.body[:lp.body.index(top)])
+        from ..sym import path_condition
+        tree, _ = path_condition(acc_st, lp, tracker=bt)
+        acc = next((a for a in ancestors(acc_st) if isinstance(a, ast.If)), acc_st)
         bad = _nnf_negated_orderings(tree)
-        run.judged(rid, "%s accepts the trial point under `%s`" % (q, src(acc.test)), ok=not bad)
+        run.judged(rid, "%s accepts the trial point under `%s`" % (q, src(getattr(acc, "test", acc))), ok=not bad)
         if bad:
             run.report("C15.4", OPT, acc, "%s accepts the trial point under a NEGATED ordering test (%s): when the quantity is NaN (0/0 for a zero step) the point is accepted, "
                                           "the step norm is 0 and the step-size criterion reports success at the unchanged initial guess" % (q, bad[0].split("@")[0]),
